@@ -82,6 +82,8 @@ extern volatile int vh_seam_armed;            /* count/fail/ledger only while se
 extern char vh_req_log[256];         /* kinds of requests: m r f M U */
 typedef void (*vh_release_cb) (const void *p, size_t n, int kind);
 extern vh_release_cb vh_on_release;  /* called before free/munmap/realloc of a ledger block */
+typedef void (*vh_request_cb) (int kind, size_t n);
+extern vh_request_cb vh_on_request;  /* called when the library asks the allocator for memory (malloc/calloc 'm', realloc 'r'), before the answer */
 struct vh_blk { void *p; size_t n; int kind; int live; int by_lib; };
 extern struct vh_blk vh_ledger[512];
 extern int vh_nledger;
